@@ -1,6 +1,7 @@
 """C09 — filter / re-index / sort keep rows intact and leave the source untouched.
    Real code: exetera/core/{operations,fields,dataframe,session,validation}.py
-   Model:     coq/Model/FilterIndex.v + coq/Model/StableSort.v;  spec: coq/Spec/FilterIndexSpec.v
+   Model:     coq/Model/FilterIndex.v + coq/Model/StableSort.v + coq/Model/FrameHist.v (histories across entry-point
+              levels);  spec: coq/Spec/FilterIndexSpec.v + coq/Spec/FrameHistSpec.v
 """
 import io, itertools, os
 
@@ -12,7 +13,8 @@ LEVEL = 'proof'
 TIMEOUT_S = 30.0
 EXHAUSTIVE = {'quick': True, 'thorough': True}
 TECHNIQUE = ('Coq proof (Gallina model of the two indexed-string kernels, the FieldDataOps compositions, the DataFrame '
-             'loops and the LSD argsort of dataset_sort_index = list-level gather / stable lexicographic sort) + '
+             'loops and the LSD argsort of dataset_sort_index = list-level gather / stable lexicographic sort; histories of '
+             'calls at dataframe, session and field level = fold of the one-call specifications, by induction) + '
              'exhaustive small-scope differential correspondence against the real HDF5-backed and in-memory fields')
 RULE = ('exhaustive small scope, then seeded random. Kernels: every indexed-string column of <= 4 (thorough 5) rows with entry '
         'lengths in {0,1,2} x every boolean filter of that length (+ short/long filters), every index array of length <= 3 '
@@ -23,7 +25,19 @@ RULE = ('exhaustive small scope, then seeded random. Kernels: every indexed-stri
         'every field type (indexed strings with empty and multi-byte entries) with <= 4 rows x every boolean / 0-1-2 numeric / '
         'float filter, every index array of length <= 3 (2-column frame), every key list of length <= 2 with ties, each '
         'in place and into a fresh dataframe, via DataFrame.* and Session.sort_on, plus all two-step histories over a menu '
-        'of 14 calls (repeated application, destination reuse, in-place after out-of-place). Session.apply_filter/apply_index '
+        'of 14 calls (repeated application, destination reuse, in-place after out-of-place). Histories that cross entry-point '
+        'levels on ONE dataframe object (op fh; same DataFrame, Field and Session objects throughout): a 20-letter alphabet = '
+        'DataFrame.sort_values (1 key, 2 keys, string key) / apply_filter / apply_index, each in place and into a fresh '
+        'destination; Session.sort_on (same frame on another key / on the same key, other frame); Session.apply_index(dest=src) '
+        'on every column; Field.apply_index / apply_filter(in_place=True) on every column or on the key column only; '
+        'field.data[:]= / clear()+write() of the key column or of all rows. Every history of <= 3 letters over a 10-letter core '
+        'alphabet on a 3-row frame, every 2-letter history over the whole alphabet, every history (in-place dataframe call, '
+        'below-dataframe change, the same call again into a destination AND in place | any other dataframe call) on 2- and '
+        '3-row frames, 250 sampled 3-letter histories over the whole alphabet, 120 random histories of 4-9 letters with random '
+        'keys (1-2 sort keys over all columns) / permutations / filters / written values on 2-9 rows (thorough: 4 frames, 3000 '
+        '3-letter + 1500 4-letter + 1000 random histories); a new small literal of the tree under test becomes the row count '
+        '(harness/hot.py), a changed tree triples the sampled budget. Quick tier: these histories run compiled only. '
+        'Session.apply_filter/apply_index '
         'with Field and ndarray sources. HDF5-backed cases cost 3-10 ms each, hence the row bounds. After every call all fields '
         'of all dataframes are read back twice (through the cached Field objects and through fresh ones) and compared with the '
         'model AND with the row-level specification, including class/dtype/strlen/key of every column. Non-trivial = reaches a '
@@ -40,7 +54,10 @@ LEVEL_TEXT = ('Theorems in coq/Props/C09.v prove for all inputs (unbounded rows,
               'two kernels returns the canonical storage of the filtered / gathered entries, that every dataframe-level call '
               'equals the row-level specification (same gather applied to every column, source unchanged, metadata copied), '
               'that in-place equals out-of-place, and that dataset_sort_index is the unique stable permutation sorting the key '
-              'rows lexicographically; the model is tied to the repository by the differential run described in `rule`.')
+              'rows lexicographically; that a history of dataframe-, session- and field-level calls and direct writes on the '
+              'same objects equals the fold of the one-call specifications over the frames as they stand at each call '
+              '(c09_history_correct, c09_history_last_call_alone, c09_call_after_any_history: the model keeps no state '
+              'between calls); the model is tied to the repository by the differential run described in `rule`.')
 LEVEL_NOTE = ('Source immutability and metadata are facts about numpy/h5py aliasing: trivial in the functional model, '
               'established for the real code only by the correspondence run (bounded).')
 
@@ -323,6 +340,8 @@ def run(case):
             return run_fld(ctx, case)
         if op == 'df':
             return run_df(ctx, case)
+        if op == 'fh':
+            return run_fh(ctx, case)
         if op == 'arr':
             return run_arr(ctx, case)
         if op == 'dsi':
@@ -391,6 +410,12 @@ def run_df(ctx, case):
             add_col(df, col)
         dfs.append(df)
     for st in case['steps']:
+        do_step(ctx, dfs, st)
+    return [canon_frame(ctx, df) for df in dfs]
+
+
+def do_step(ctx, dfs, st):
+    if True:
         k = st['k']
         src = dfs[st['src']]
         dst = None if st['dst'] is None else dfs[st['dst']]
@@ -419,6 +444,46 @@ def run_df(ctx, case):
             ctx.s.sort_on(src, src if dst is None else dst, keys, verbose=False)
         else:
             raise ValueError(k)
+
+
+def run_fh(ctx, case):
+    """a history that crosses entry-point levels on the SAME dataframe / field / session objects"""
+    np = _np
+    dfs = []
+    for cols in case['world']:
+        df = ctx.newdf()
+        for col in cols:
+            add_col(df, col)
+        dfs.append(df)
+    held = {}                                   # Field objects are fetched once and kept, as a caller would
+    for ev in case['evs']:
+        e = ev['e']
+        if e == 'call':
+            do_step(ctx, dfs, ev['st'])
+            continue
+        df = dfs[ev['src']]
+        name = 'c%d' % ev['name']
+        f = df[name]
+        assert held.setdefault((ev['src'], name), f) is f
+        if e == 'write':
+            c = ev['col']
+            new = list(c['data']) if c['kind'] == 'idx' else np_data(c)
+            if ev['how'] == 'slice':
+                f.data[:] = new                 # same length (h5py slice assignment)
+            else:
+                f.data.clear()
+                f.data.write(new)
+        elif e == 'findex':
+            r = f.apply_index(np.array(ev['idx'], dtype=np.int64), in_place=True)
+            assert r is f
+        elif e == 'ffilter':
+            r = f.apply_filter(np_arg(ev['flt'], ev['dt']), in_place=True)
+            assert r is f
+        elif e == 'sindex':
+            ctx.s.apply_index(np.array(ev['idx'], dtype=np.int64), f, dest=f)
+        else:
+            raise ValueError(e)
+        assert df[name] is f
     return [canon_frame(ctx, df) for df in dfs]
 
 
@@ -482,6 +547,26 @@ def to_val(case):
         steps = [[kinds[st['k']], st['src'], flt_class(st.get('dt', 'int64')), st['arg'], opt(st['dst'])]
                  for st in case['steps']]
         return [4, world, steps]
+    if op == 'fh':
+        world = [[[c['name'], col_to_wire(c)] for c in cols] for cols in case['world']]
+        kinds = {'filter': 0, 'index': 1, 'sort': 2, 'sort_on': 3}
+        evs = []
+        for ev in case['evs']:
+            e = ev['e']
+            if e == 'call':
+                st = ev['st']
+                evs.append([0, [kinds[st['k']], st['src'], flt_class(st.get('dt', 'int64')), st['arg'], opt(st['dst'])]])
+            elif e == 'write':
+                evs.append([1, ev['src'], ev['name'], col_to_wire(ev['col'])])
+            elif e == 'findex':
+                evs.append([2, ev['src'], ev['name'], ev['idx']])
+            elif e == 'ffilter':
+                evs.append([3, ev['src'], ev['name'], flt_class(ev['dt']), ev['flt']])
+            elif e == 'sindex':
+                evs.append([4, ev['src'], ev['name'], ev['idx']])
+            else:
+                raise ValueError(e)
+        return [7, world, evs]
     if op == 'arr':
         return [5, 0 if case['what'] == 'filter' else 1, case['src'], flt_class(case['dt']), case['arg'], opt(case['dest'])]
     if op == 'dsi':
@@ -514,7 +599,7 @@ def _strings_of(case):
     out = []
     if case['op'] == 'fld' and case['col']['kind'] == 'idx':
         out += case['col']['data']
-    if case['op'] == 'df':
+    if case['op'] in ('df', 'fh'):
         for cols in case['world']:
             for c in cols:
                 if c['kind'] == 'idx':
@@ -586,6 +671,8 @@ def features(case, model):
         if any(len(cols) >= 7 for cols in case['world']): f.append('df:every-field-type')
         if any(c.get('unwritten') for cols in case['world'] for c in cols): f.append('never-written-column')
         if any(len(cols) == 0 for cols in case['world'][:1]): f.append('df:no-columns')
+    elif op == 'fh':
+        f += _fh_features(case)
     elif op == 'arr':
         f.append('arr:' + case['what'] + ('/field-arg' if case.get('asfield') else '') + ('/dest' if case['dest'] is not None else ''))
         if case['what'] == 'filter' and case['dt'] != 'bool': f.append('arr:numeric-filter')
@@ -675,6 +762,8 @@ def filter_variants(flt, rich):
 
 
 def gen(tier, rng):
+    global _TIER
+    _TIER = tier
     big = tier == 'thorough'
     # ---- G1 kernel filter
     nmax = 5 if big else 4
@@ -909,6 +998,9 @@ def gen(tier, rng):
             seconds = [s for i, s in enumerate(seconds) if (i + len(s1['arg'])) % 2 == 0 or s['dst'] == s1['dst']]
         for s2 in seconds:
             yield {'op': 'df', 'world': [fa, E, E], 'steps': [s1, s2]}
+    # ---- G7 histories that cross entry-point levels on one dataframe object
+    for c in gen_fh(tier, rng):
+        yield c
     # ---- structured random: longer frames
     for _ in range(600 if big else 120):
         n = rng.randint(5, 12)
@@ -940,6 +1032,11 @@ def gen(tier, rng):
 
 def shrink(case):
     op = case['op']
+    if op == 'fh':
+        evs = case['evs']
+        for i in range(len(evs)):
+            yield dict(case, evs=evs[:i] + evs[i + 1:])
+        return
     if op == 'df':
         if len(case['steps']) > 1:
             yield dict(case, steps=case['steps'][:1])
@@ -967,3 +1064,321 @@ def _norm(x):
 def equal(case, impl, expected, mode):
     from harness import core
     return core.results_equal(_norm(impl), _norm(expected), mode)
+
+
+# ----------------------------------------------------------------------------- histories across entry-point levels
+_TIER = 'quick'
+
+
+def skip(case, mode):
+    """quick tier: the HDF5-heavy cross-level histories run compiled only (the kernels they reach are covered
+    interpreted / bounds-checked by the kf / ki / fld / df cases); thorough: every mode"""
+    return case['op'] == 'fh' and mode != 'jit' and _TIER != 'thorough'
+
+
+def fh_frame(n, variant=0):
+    """payload string column, two key columns with ties (int32, fixed string), a row-id column, a second int key"""
+    rot = lambda l: [l[(i + variant) % len(l)] for i in range(n)]
+    return [
+        {'name': 0, 'kind': 'idx', 'data': [rot(POOL_S)[i] + str(i) for i in range(n)]},
+        {'name': 1, 'kind': 'num', 'dtype': 'int32', 'data': rot([2, 1, 2, 0, 1, 2, 0, 1, 1])},
+        {'name': 2, 'kind': 'fix', 'strlen': 2, 'data': rot(['b', 'ab', 'b', 'ab', '', 'b', 'a', 'ab'])},
+        {'name': 3, 'kind': 'num', 'dtype': 'int64', 'data': list(range(100, 100 + n))},
+    ]
+
+
+def _fh_key(col, x):
+    k = col['kind']
+    if k == 'idx':
+        return x.encode()
+    if k == 'fix':
+        return x.encode().ljust(col['strlen'], b'\0')
+    return x
+
+
+class FhSim:
+    """python-side replay of frame 0 of a history (only to build valid events and to name features; never a verdict)"""
+
+    def __init__(self, cols):
+        self.cols = [dict(c, data=list(c['data'])) for c in cols]
+        self.ragged = False
+
+    @property
+    def n(self):
+        return len(self.cols[0]['data']) if self.cols else 0
+
+    def col(self, name):
+        return [c for c in self.cols if c['name'] == name][0]
+
+    def order(self, by):
+        ks = [self.col(k) for k in by]
+        return sorted(range(self.n), key=lambda i: tuple(_fh_key(c, c['data'][i]) for c in ks))
+
+    def is_sorted(self, by):
+        return self.order(by) == list(range(self.n))
+
+    def gather(self, ps, names=None):
+        for c in self.cols:
+            if names is None or c['name'] in names:
+                c['data'] = [c['data'][p] for p in ps]
+        lens = {len(c['data']) for c in self.cols}
+        self.ragged = len(lens) > 1
+
+    def apply(self, ev):
+        """updates the state; events on other frames than 0 and destination forms leave frame 0 alone"""
+        e = ev['e']
+        if e == 'call':
+            st = ev['st']
+            if st['src'] != 0 or st['dst'] is not None:
+                return
+            if st['k'] == 'filter':
+                self.gather([i for i, x in enumerate(st['arg']) if x])
+            elif st['k'] == 'index':
+                self.gather(list(st['arg']))
+            else:
+                self.gather(self.order(st['arg']))
+            return
+        if ev['src'] != 0:
+            return
+        if e == 'write':
+            self.col(ev['name'])['data'] = list(ev['col']['data'])
+            self.ragged = len({len(c['data']) for c in self.cols}) > 1
+        elif e in ('findex', 'sindex'):
+            self.gather(list(ev['idx']), {ev['name']})
+        elif e == 'ffilter':
+            self.gather([i for i, x in enumerate(ev['flt']) if x], {ev['name']})
+
+
+def _rotl(n):
+    return list(range(1, n)) + [0] if n else []
+
+
+# the event alphabet: name -> function(sim, alloc) -> list of events (a "letter" may expand to one event per column).
+# `alloc()` hands out the index of a fresh empty destination frame.
+def _call(k, arg, dst=None, **kw):
+    return {'e': 'call', 'st': dict({'k': k, 'src': 0, 'arg': arg, 'dst': dst}, **kw)}
+
+
+def _fh_letters():
+    L = {}
+    names = lambda sim: [c['name'] for c in sim.cols]
+    # --- dataframe level
+    L['sort1'] = lambda sim, alloc: [_call('sort', [1])]
+    L['sort1>'] = lambda sim, alloc: [_call('sort', [1], alloc())]
+    L['sort12'] = lambda sim, alloc: [_call('sort', [1, 2])]
+    L['sort12>'] = lambda sim, alloc: [_call('sort', [1, 2], alloc())]
+    L['sort2'] = lambda sim, alloc: [_call('sort', [2], bystr=True)]
+    L['sort2>'] = lambda sim, alloc: [_call('sort', [2], alloc())]
+    L['filter'] = lambda sim, alloc: [_call('filter', [0 if i == 1 else 1 for i in range(sim.n)], dt='bool')]
+    L['filter>'] = lambda sim, alloc: [_call('filter', [0 if i == 1 else 2 for i in range(sim.n)], alloc(), dt='int8')]
+    L['index'] = lambda sim, alloc: [_call('index', list(reversed(range(sim.n))))]
+    L['index>'] = lambda sim, alloc: [_call('index', list(reversed(range(sim.n))), alloc())]
+    # --- session level
+    L['s.sort_on2'] = lambda sim, alloc: [_call('sort_on', [2])]
+    L['s.sort_on1'] = lambda sim, alloc: [_call('sort_on', [1])]
+    L['s.sort_on1>'] = lambda sim, alloc: [_call('sort_on', [1], alloc())]
+    L['s.index-all'] = lambda sim, alloc: [{'e': 'sindex', 'src': 0, 'name': k, 'idx': _rotl(sim.n)} for k in names(sim)]
+    # --- field level / direct writes
+    L['f.index-all'] = lambda sim, alloc: [{'e': 'findex', 'src': 0, 'name': k, 'idx': list(reversed(range(sim.n)))}
+                                           for k in names(sim)]
+    L['f.index-key'] = lambda sim, alloc: [{'e': 'findex', 'src': 0, 'name': 1, 'idx': _rotl(sim.n)}]
+    L['f.filter-all'] = lambda sim, alloc: [{'e': 'ffilter', 'src': 0, 'name': k, 'dt': 'bool',
+                                             'flt': [1 if i != 0 or sim.n == 1 else 0 for i in range(sim.n)]} for k in names(sim)]
+    L['w.key-clear'] = lambda sim, alloc: [{'e': 'write', 'src': 0, 'name': 1, 'how': 'clear',
+                                            'col': dict(sim.col(1), data=[(v + 1 + i) % 3 for i, v in enumerate(sim.col(1)['data'])])}]
+    L['w.key-slice'] = lambda sim, alloc: [{'e': 'write', 'src': 0, 'name': 1, 'how': 'slice',
+                                            'col': dict(sim.col(1), data=list(reversed(sim.col(1)['data'])))}]
+    L['w.rows-clear'] = lambda sim, alloc: [{'e': 'write', 'src': 0, 'name': c['name'], 'how': 'clear',
+                                             'col': dict(c, data=[c['data'][p] for p in _rotl(sim.n)])} for c in sim.cols]
+    return L
+
+
+FH_LETTERS = _fh_letters()
+FH_DF_INPLACE = ['sort1', 'sort12', 'sort2', 'filter', 'index']
+FH_DF_ALL = FH_DF_INPLACE + ['sort1>', 'sort12>', 'sort2>', 'filter>', 'index>']
+FH_BELOW = ['s.sort_on2', 's.sort_on1', 's.index-all', 'f.index-all', 'f.index-key', 'f.filter-all',
+            'w.key-clear', 'w.key-slice', 'w.rows-clear']
+FH_CORE = ['sort1', 'sort1>', 'sort12', 'filter', 'index', 's.sort_on2', 'f.index-all', 'w.key-clear',
+           'f.filter-all', 's.index-all']
+FH_ALL = FH_DF_ALL + FH_BELOW + ['s.sort_on1>']
+
+
+def fh_case(cols, word, twice_last=False):
+    """the history spelt by `word` (letters of FH_LETTERS) on a frame with columns `cols`.
+    twice_last: the last letter, when it has a destination form, is issued in BOTH forms (to a destination first)."""
+    sim = FhSim(cols)
+    world = [cols]
+
+    def alloc():
+        world.append([])
+        return len(world) - 1
+    evs = []
+    for i, w in enumerate(word):
+        if twice_last and i == len(word) - 1 and (w + '>') in FH_LETTERS:
+            for ev in FH_LETTERS[w + '>'](sim, alloc):
+                evs.append(ev)
+                sim.apply(ev)
+        for ev in FH_LETTERS[w](sim, alloc):
+            evs.append(ev)
+            sim.apply(ev)
+    return {'op': 'fh', 'world': world, 'evs': evs, 'word': list(word)}
+
+
+def fh_random(rng, n, length):
+    """a random history of `length` letters with random arguments on an n-row frame"""
+    cols = fh_frame(n, rng.randint(0, 7))
+    for c in cols[1:3]:
+        pool = sorted(set(c['data'])) or ([0] if c['kind'] == 'num' else [''])
+        c['data'] = [rng.choice(pool) for _ in range(n)]
+    sim = FhSim(cols)
+    world = [cols]
+
+    def alloc():
+        world.append([])
+        return len(world) - 1
+    evs, word = [], []
+    memo_keys = None
+    for _ in range(length):
+        m = sim.n
+        r = rng.random()
+        names = [c['name'] for c in sim.cols]
+        if r < 0.40:
+            by = rng.sample(names, rng.choice([1, 1, 2]))
+            if memo_keys is not None and rng.random() < 0.6:
+                by = memo_keys                              # sort by the keys of an earlier in-place sort again
+            dst = alloc() if rng.random() < 0.35 else None
+            new = [_call('sort', by, dst)]
+            if dst is None:
+                memo_keys = by
+            word.append('sort')
+        elif r < 0.50:
+            flt = [rng.choice([0, 1, 1]) for _ in range(m)]
+            new = [_call('filter', flt, alloc() if rng.random() < 0.3 else None, dt='bool')]
+            word.append('filter')
+        elif r < 0.58:
+            perm = list(range(m)); rng.shuffle(perm)
+            if rng.random() < 0.3 and m:
+                perm = [rng.randrange(m) for _ in range(rng.randint(1, m + 1))]
+            new = [_call('index', perm, alloc() if rng.random() < 0.3 else None)]
+            word.append('index')
+        elif r < 0.70:
+            by = rng.sample(names, rng.choice([1, 2]))
+            new = [_call('sort_on', by, alloc() if rng.random() < 0.2 else None)]
+            word.append('s.sort_on')
+        elif r < 0.82:
+            perm = list(range(m)); rng.shuffle(perm)
+            e = rng.choice(['findex', 'sindex'])
+            which = names if rng.random() < 0.7 else [rng.choice(names)]
+            new = [{'e': e, 'src': 0, 'name': k, 'idx': perm} for k in which]
+            word.append(e)
+        elif r < 0.88:
+            flt = [rng.choice([0, 1, 1]) for _ in range(m)]
+            new = [{'e': 'ffilter', 'src': 0, 'name': k, 'dt': rng.choice(['bool', 'int8']), 'flt': flt} for k in names]
+            word.append('ffilter')
+        else:
+            c = sim.col(rng.choice([1, 2]))
+            pool = sorted(set(fh_frame(8)[c['name']]['data']))
+            new = [{'e': 'write', 'src': 0, 'name': c['name'], 'how': rng.choice(['slice', 'clear']),
+                    'col': dict(c, data=[rng.choice(pool) for _ in range(m)])}]
+            word.append('write')
+        for ev in new:
+            evs.append(ev)
+            sim.apply(ev)
+    return {'op': 'fh', 'world': world, 'evs': evs, 'word': word}
+
+
+def gen_fh(tier, rng):
+    from harness import hot
+    big = tier == 'thorough'
+    boost = 3 if hot.changed() else 1
+    # (a) the class shape, over the whole alphabet: an in-place dataframe-level call, then the rows change BELOW the
+    #     dataframe (session / field level / direct write), then a dataframe-level call again — the same one, in place
+    #     AND into a destination, and every other one — on 2- and 3-row frames
+    for n, variant in ((3, 0), (2, 1)) + (((3, 2), (4, 5)) if big else ()):
+        cols = fh_frame(n, variant)
+        for a in FH_DF_INPLACE:
+            for b in FH_BELOW:
+                yield fh_case(cols, [a, b, a], twice_last=True)
+                for c in FH_DF_ALL:
+                    if c != a and c != a + '>' and (big or n == 3):
+                        yield fh_case(cols, [a, b, c])
+    # (b) every history of <= 3 letters over the core alphabet (3 rows); thorough: over the whole alphabet, and <= 4 core
+    cols = fh_frame(3, 0)
+    for k in (1, 2, 3):
+        for word in itertools.product(FH_CORE, repeat=k):
+            yield fh_case(cols, list(word))
+    for word in itertools.product(FH_ALL, repeat=2):
+        if not all(w in FH_CORE for w in word):
+            yield fh_case(cols, list(word))
+    if big:
+        words3 = [w for w in itertools.product(FH_ALL, repeat=3) if not all(x in FH_CORE for x in w)]
+        for word in rng.sample(words3, 3000):
+            yield fh_case(fh_frame(3, 1), list(word))
+        words4 = list(itertools.product(FH_CORE, repeat=4))
+        for word in rng.sample(words4, 1500):
+            yield fh_case(fh_frame(2, 0), list(word))
+    else:
+        words3 = [w for w in itertools.product(FH_ALL, repeat=3) if not all(x in FH_CORE for x in w)]
+        for word in rng.sample(words3, 250 * boost):
+            yield fh_case(fh_frame(rng.choice([2, 3]), rng.randint(0, 7)), list(word))
+    # (c) sampled longer histories with random arguments
+    for _ in range((1000 if big else 120) * boost):
+        yield fh_random(rng, rng.randint(2, 9), rng.randint(4, 9))
+    # (d) change-directed: a small literal that is new in the tree under test becomes the row count
+    for K in hot.hot_sizes():
+        if K > 300:
+            continue
+        for n in sorted({max(K - 1, 1), K, K + 1, 2 * K}):
+            yield fh_random(rng, n, 6)
+            yield fh_case(fh_frame(n, 0), ['sort1', 's.sort_on2', 'sort1'], twice_last=True)
+            yield fh_case(fh_frame(n, 0), ['sort12', 'f.index-all', 'sort12'], twice_last=True)
+
+
+_BELOW_EV = ('write', 'findex', 'ffilter', 'sindex')
+
+
+def _fh_features(case):
+    f = []
+    try:
+        sim = FhSim(case['world'][0])
+        evs = case['evs']
+        f.append('fh:events=%s' % (len(evs) if len(evs) < 10 else '10+'))
+        f.append('fh:rows=%s' % (sim.n if sim.n < 6 else '6+'))
+        last_inplace = {}          # kind of in-place dataframe-level call -> (arg, index of the event)
+        for i, ev in enumerate(evs):
+            e = ev['e']
+            if e == 'call':
+                st = ev['st']
+                form = 'ddf' if st['dst'] is not None else 'in-place'
+                f.append('fh:ev=' + ('df.' if st['k'] != 'sort_on' else 's.') + st['k'] + '/' + form)
+                if st['src'] == 0 and st['k'] in ('sort', 'filter', 'index'):
+                    key = (st['k'], tuple(st['arg']) if st['k'] == 'sort' else None)
+                    if key in last_inplace:
+                        between = evs[last_inplace[key] + 1:i]
+                        levels = set()
+                        for b in between:
+                            if b['e'] in _BELOW_EV:
+                                levels.add('field' if b['e'] != 'sindex' else 'session')
+                            elif b['st']['k'] == 'sort_on':
+                                if b['st']['dst'] is None:
+                                    levels.add('session')
+                            elif b['st']['dst'] is None:
+                                levels.add('dataframe')
+                        lv = '+'.join(sorted(levels)) if levels else 'nothing'
+                        f.append('fh:%s-again/%s/after:%s' % (st['k'] if st['k'] != 'sort' else 'sort-same-keys', form, lv))
+                        if st['k'] == 'sort' and not sim.ragged and levels & {'field', 'session'}:
+                            f.append('fh:sort-same-keys-again/%s/rows-%s-at-that-time'
+                                     % (form, 'already-sorted' if sim.is_sorted(st['arg']) else 'NOT-sorted'))
+                    if st['dst'] is None:
+                        last_inplace[key] = i
+                if st['k'] in ('sort', 'sort_on'):
+                    f.append('fh:%d-keys' % len(st['arg']))
+            else:
+                f.append('fh:ev=' + {'write': 'field.data-write/' + ev.get('how', ''), 'findex': 'Field.apply_index/in-place',
+                                     'ffilter': 'Field.apply_filter/in-place', 'sindex': 'Session.apply_index/dest=src'}[e])
+            sim.apply(ev)
+            if sim.ragged:
+                f.append('fh:frame-ragged-at-some-time')
+    except Exception:
+        f.append('fh:unsimulated')
+    return f
